@@ -362,84 +362,61 @@ class DynGraph(nx.Graph):
 
         if not isinstance(t, list):
             t = [t, t]
-
-        for idt in [t[0]]:
-            if self.has_edge(u, v) and not self.edge_removal:
-                continue
-            else:
-                if idt not in self.time_to_edge:
-                    self.time_to_edge[idt] = {(u, v, "+"): None}
-                else:
-                    if (u, v, "+") not in self.time_to_edge[idt]:
-                        self.time_to_edge[idt][(u, v, "+")] = None
-
         if e is not None and self.edge_removal:
-
             t[1] = e - 1
-            if e not in self.time_to_edge:
-                self.time_to_edge[e] = {(u, v, "-"): None}
-            else:
-                self.time_to_edge[e][(u, v, "-")] = None
 
-        # add the interaction
-        datadict = self._adj[u].get(v, self.edge_attr_dict_factory())
-
-        if 't' in datadict:
-            app = datadict['t']
-            max_end = app[-1][1]
-
-            if max_end == app[-1][0] and t[0] == app[-1][0] + 1:
-
-                app[-1] = [app[-1][0], t[1]]
-                if app[-1][0] + 1 in self.time_to_edge and (u, v, "+") in self.time_to_edge[app[-1][0] + 1]:
-                    del self.time_to_edge[app[-1][0] + 1][(u, v, "+")]
-
-            else:
-                if t[0] < app[-1][0]:
-                    raise ValueError("The specified interaction extension is broader than "
-                                     "the ones already present for the given nodes.")
-
-                if t[0] <= max_end < t[1]:
-                    app[-1][1] = t[1]
-                    if max_end + 1 in self.time_to_edge:
-                        if self.edge_removal:
-                            del self.time_to_edge[max_end + 1][(u, v, "-")]
-                        del self.time_to_edge[t[0]][(u, v, "+")]
-
-                elif max_end == t[0] - 1:
-                    if max_end + 1 in self.time_to_edge and (u, v, "+") in self.time_to_edge[max_end + 1]:
-                        del self.time_to_edge[max_end + 1][(u, v, "+")]
-                        if self.edge_removal:
-                            if max_end + 1 in self.time_to_edge and (u, v, '-') in self.time_to_edge[max_end + 1]:
-                                del self.time_to_edge[max_end + 1][(u, v, '-')]
-                            if t[1] + 1 in self.time_to_edge:
-                                self.time_to_edge[t[1] + 1][(u, v, "-")] = None
-                            else:
-                                self.time_to_edge[t[1] + 1] = {(u, v, "-"): None}
-
-                    app[-1][1] = t[1]
-                else:
-                    app.append(t)
-        else:
+        if v not in self._adj[u]:
+            # first span of the pair
+            datadict = self.edge_attr_dict_factory()
             datadict['t'] = [t]
-
-        if e is not None:
-            span = range(t[0], t[1] + 1)
-            for idt in span:
-                if idt not in self.snapshots:
-                    self.snapshots[idt] = 1
-                else:
-                    self.snapshots[idt] += 1
+            self._adj[u][v] = datadict
+            self._adj[v][u] = datadict
+            self.__add_event(t[0], (u, v, "+"))
+            first, closing = t[0], e is not None and self.edge_removal
         else:
-            for idt in t:
-                if idt is not None:
-                    if idt not in self.snapshots:
-                        self.snapshots[idt] = 1
-                    else:
-                        self.snapshots[idt] += 1
+            app = self._adj[u][v]['t']
+            max_end = app[-1][1]
+            if t[0] > max_end + 1:
+                # new run, separated from the latest one by at least one absent instant
+                app.append(t)
+                if self.edge_removal:
+                    self.__add_event(t[0], (u, v, "+"))
+                first, closing = t[0], e is not None and self.edge_removal
+            elif t[1] > max_end:
+                # the span overlaps or touches the latest run: extend it
+                if self.edge_removal:
+                    self.__del_event(max_end + 1, (u, v, "-"))
+                    self.__del_event(max_end + 1, (v, u, "-"))
+                # a single instant extended by the next single instant stays without closing event
+                closing = self.edge_removal and not (e is None and app[-1][0] == max_end)
+                app[-1][1] = t[1]
+                first = max_end + 1
+            else:
+                # the span is contained in the latest run: presence does not change,
+                # a vanishing time at the end of the run (re)states its closing event
+                first, closing = t[1] + 1, e is not None and self.edge_removal and t[1] == max_end
+                if closing:
+                    self.__del_event(max_end + 1, (v, u, "-"))
 
-        self._adj[u][v] = datadict
-        self._adj[v][u] = datadict
+        if closing:
+            self.__add_event(t[1] + 1, (u, v, "-"))
+
+        # each interaction counts twice (once per endpoint) in every snapshot it is present in
+        for idt in range(first, t[1] + 1):
+            if idt not in self.snapshots:
+                self.snapshots[idt] = 2
+            else:
+                self.snapshots[idt] += 2
+
+    def __add_event(self, tid, event):
+        if tid not in self.time_to_edge:
+            self.time_to_edge[tid] = {event: None}
+        else:
+            self.time_to_edge[tid][event] = None
+
+    def __del_event(self, tid, event):
+        if tid in self.time_to_edge and event in self.time_to_edge[tid]:
+            del self.time_to_edge[tid][event]
 
     def add_interactions_from(self, ebunch, t=None, e=None):
         """Add all the interaction in ebunch at time t.
